@@ -20,6 +20,7 @@ _MISSING = object()
 REGISTRY = {}
 TRANSPARENT = {}
 LEMMAS = {}
+NATIVE = {}
 
 
 class Loop:
@@ -161,3 +162,8 @@ def lemma(name, props=()):
         return f
 
     return deco
+
+
+def native(qualname, post=None):
+    """a pure repo function that may be executed natively when all its arguments are concrete"""
+    NATIVE[qualname] = post
